@@ -82,6 +82,8 @@ def gen_cases(tier, seed):
         yield {"kind": "supercritical", "ads": name, "over": [1.001, 1.05, 1.5]}
     for i in range(6 if tier == "quick" else 60):
         yield {"kind": "fallback", "seed": r.randrange(1 << 30), "variant": i % 6}
+    for i in range(6 if tier == "quick" else 80):
+        yield {"kind": "relinked", "seed": r.randrange(1 << 30)}
 
 
 def run_case(case, ctx):
@@ -180,6 +182,41 @@ def _run_registry(case, ctx):
             ctx.hook("isotherm_linkage")
             if linked is not found:
                 ctx.violation("BaseIsotherm.adsorbate/not-linked", "isotherm created with the string is not linked to the registry adsorbate", looked_up=v, linked=repr(linked))
+
+
+def _run_relinked(case, ctx):
+    """The list entry a name designates is exchanged during the session (the list re-read from a database, an entry replaced by an
+    updated copy): isotherms created afterwards are linked to the adsorbate the name designates *now*."""
+    import pygaps
+    from pygaps.core.baseisotherm import BaseIsotherm
+    r = gen.rng(case["seed"], "rl")
+    idx = r.randrange(len(pygaps.ADSORBATE_LIST))
+    old = pygaps.ADSORBATE_LIST[idx]
+    designation = r.choice([old.name] + list(old.alias)[:3])
+    designation = r.choice([designation, designation.upper(), designation.lower()])
+    try:
+        if pygaps.Adsorbate.find(designation) is not old:
+            return
+        first = BaseIsotherm(material="verif-m", adsorbate=designation, temperature=300.0)
+        d = copy.deepcopy(old.to_dict())
+        d["cross_sectional_area"] = 0.1234
+        new = pygaps.Adsorbate(store=False, **d)
+        pygaps.ADSORBATE_LIST[idx] = new
+        try:
+            found = pygaps.Adsorbate.find(designation)
+            second = BaseIsotherm(material="verif-m", adsorbate=designation, temperature=300.0)
+            ctx.case(["relinked", designation])
+            ctx.count("lookups", "after-the-list-entry-was-exchanged")
+            ctx.hook("isotherm_linkage")
+            if found is not new:
+                ctx.violation("Adsorbate.find/stale-after-list-entry-exchanged", "the name resolves to an object that is no longer in the list", looked_up=designation)
+            elif second.adsorbate is not new:
+                ctx.violation("BaseIsotherm.adsorbate/not-linked/after-list-entry-exchanged", "an isotherm created after the list entry was exchanged is linked to the adsorbate that is no longer listed",
+                              looked_up=designation, linked_is_old=second.adsorbate is old, first_was_old=first.adsorbate is old)
+        finally:
+            pygaps.ADSORBATE_LIST[idx] = old
+    except Exception as exc:
+        ctx.violation("BaseIsotherm.adsorbate/raises/after-list-entry-exchanged", "creating an isotherm after exchanging a list entry raised", exc=exc, looked_up=designation)
 
 
 def _call(fn, *a, **k):
